@@ -96,7 +96,7 @@ def initCore (ts : List String) : Option DSt :=
   | _ => none
 
 /-- header with (11 tokens) or without (9 tokens) the environment for the `checkMotion` recomputation. -/
-def init (ts : List String) : Option DSt :=
+def initEnv (ts : List String) : Option DSt :=
   match ts with
   | [a, d, o, md, kr, gb, gt, th, g, lv, bx] => do
     let core ← initCore [a, d, o, md, kr, gb, gt, th, g]
@@ -104,6 +104,16 @@ def init (ts : List String) : Option DSt :=
     let boxes ← (kv "boxes=" bx) >>= parseBoxes?
     pure { core with val := some { lvs := lvs, boxes := boxes } }
   | _ => initCore ts
+
+/-- an optional last token `dcc=0|1` selects the choose-parent loop (`delayCC_`; absent = 1, the default). -/
+def init (ts : List String) : Option DSt :=
+  match ts.getLast? >>= kv "dcc=" with
+  | some "1" => initEnv ts.dropLast
+  | some "0" => (initEnv ts.dropLast).map (fun d =>
+      let sp := { d.sp with delayCC := false }
+      { d with sp := sp, st := St.init d.obj sp })
+  | some _ => none
+  | none => initEnv ts
 
 def C1 : UInt64 := 0x9E3779B97F4A7C15
 def C2 : UInt64 := 0xBF58476D1CE4E5B9
@@ -210,7 +220,7 @@ def step (d : DSt) (ts : List String) : DSt × String :=
     let cmx := match d.val with
       | none => 0
       | some v => ((st.queries.zip d.st.answers).filter (fun (qa : (Pt × Pt) × Bool) => dmvCheck v qa.1.1 qa.1.2 != qa.2)).length
-    ({ d0 with st := st }, digest d0 st ++ s!" cmx={cmx}")
+    ({ d0 with st := st }, digest d0 st ++ s!" cmx={cmx} stl={bit st.staleInc}")
   | ["rep"] =>
     match report d.obj d.st with
     | none => (d, "rep none")
